@@ -36,6 +36,24 @@ def skeletons(pmax):
     return _SK[pmax]
 
 
+# skeletons with three variables in which a constituent has two derivations over the same span, one of them
+# through another variable (so that the same chart state is reached with bound and with unbound features)
+AGREEMENT = [(3, 2, ((0, (1, 2)), (1, (2,)), (1, (3,)), (2, (3,)), (2, (4,)))),     # S -> A B; A -> B | a; B -> a | b
+             (3, 2, ((0, (1, 4)), (1, (2,)), (1, (3,)), (2, (3,))))]                # S -> A b; A -> B | a; B -> a
+
+
+def agreement_cases(max_annotated):
+    for si, sk in enumerate(AGREEMENT):
+        pos = positions(sk)
+        for ann in product(range(4), repeat=len(pos)):
+            if sum(1 for a in ann if a) <= max_annotated:
+                yield ("fcfg", -1, si, ann)
+
+
+def skeleton(case):
+    return AGREEMENT[case[2]] if case[1] == -1 else skeletons(case[1])[case[2]]
+
+
 def positions(sk):
     """variable occurrences of a skeleton: (production index, -1 for the head / body index)"""
     out = []
@@ -156,10 +174,14 @@ class C18(Prop):
         if tier == "quick":
             return [Layer("FS pairs", pairs, policies=nat),
                     Layer("FCFG skeletons<=2 prods, all annotations", lambda: fcfg_cases(2, 99), policies=nat),
-                    Layer("FCFG skeletons<=3 prods, <=2 annotated", lambda: fcfg_cases(3, 2), policies=nat)]
+                    Layer("FCFG skeletons<=3 prods, <=2 annotated", lambda: fcfg_cases(3, 2), policies=nat),
+                    Layer("FCFG agreement skeletons (3 variables), <=4 annotated", lambda: agreement_cases(4),
+                          policies=nat + ["1", "2"])]
         return [Layer("FS pairs", pairs, policies=nat + ["1"]),
                 Layer("FCFG skeletons<=2 prods, all annotations", lambda: fcfg_cases(2, 99), policies=nat + ["1"]),
-                Layer("FCFG skeletons<=3 prods, <=3 annotated", lambda: fcfg_cases(3, 3), policies=nat)]
+                Layer("FCFG skeletons<=3 prods, <=3 annotated", lambda: fcfg_cases(3, 3), policies=nat),
+                Layer("FCFG agreement skeletons (3 variables), all annotations", lambda: agreement_cases(99),
+                      policies=nat + ["1", "2"])]
 
     def reference(self, case):
         if case[0] == "fs":
@@ -170,7 +192,7 @@ class C18(Prop):
                 return {"clash": False, "obs": RS.observable(a)}
             except RS.Clash:
                 return {"clash": True}
-        sk = skeletons(case[1])[case[2]]
+        sk = skeleton(case)
         g = fcfg_reference(sk, case[3])
         return {"lang": g.lang_upto(3), "plain": not any(case[3])}
 
@@ -187,7 +209,7 @@ class C18(Prop):
     def describe(self, case):
         if case[0] == "fs":
             return {"a": repr(GS.spec(fs_pool()[case[1]])), "b": repr(GS.spec(fs_pool()[case[2]]))}
-        return {"grammar": fcfg_text(skeletons(case[1])[case[2]], case[3])}
+        return {"grammar": fcfg_text(skeleton(case), case[3])}
 
     script = describe
 
@@ -200,7 +222,7 @@ class C18(Prop):
         if case[0] == "fs":
             return self._unify(case, ref, ctx)
         from pyformlang.fcfg import FCFG
-        sk = skeletons(case[1])[case[2]]
+        sk = skeleton(case)
         text = fcfg_text(sk, case[3])
         f = ctx.call(FCFG.from_text, text)
         if not ctx.returns(f, "C18.fcfg.from_text", grammar=text):
